@@ -7,8 +7,8 @@ NoC == <<>>
 NoS == {}
 K4(w, d, n, e) == [W |-> w, D |-> d, N |-> n, E |-> e]
 RCont(cap, c) == [cap |-> cap, w |-> <<MkWell(c)>>]
-R_Names == {"a", "b", "p", "p2", "u", "c", "sol", "dil"}
-R_Shape == [a |-> <<0, 0>>, b |-> <<0, 0>>, p |-> <<2, 2>>, p2 |-> <<1, 2>>, u |-> <<0, 0>>, c |-> <<0, 0>>, sol |-> <<0, 0>>, dil |-> <<0, 0>>]
+R_Names == {"a", "b", "p", "p2", "p3", "u", "c", "sol", "dil"}
+R_Shape == [a |-> <<0, 0>>, b |-> <<0, 0>>, p |-> <<2, 2>>, p2 |-> <<1, 2>>, p3 |-> <<2, 3>>, u |-> <<0, 0>>, c |-> <<0, 0>>, sol |-> <<0, 0>>, dil |-> <<0, 0>>]
 R_Regions == [A1 |-> SL!Str("A", "1"), A2 |-> SL!Pair(SL!IntN(1), SL!IntN(2)), B1 |-> SL!Str("B", "1"),
               B2 |-> SL!Pair(SL!Lbl("B"), SL!IntN(2)), row1 |-> SL!IntN(1), row2 |-> SL!Lbl("B"),
               col1 |-> SL!Pair(SL!All, SL!IntN(1)), plate |-> SL!All, all |-> SL!All,
@@ -39,6 +39,9 @@ Bk == [call |-> "bake"]
 LIFE_Init == {[a |-> RCont(Inf, K4(I(8), Zero, I(2), Zero)), b |-> RCont(I(20), K4(Zero, I(2), Zero, I(3))),
                p |-> [cap |-> I(10), w |-> <<EmptyWell, EmptyWell, EmptyWell, EmptyWell>>],
                p2 |-> [cap |-> I(6), w |-> <<EmptyWell, EmptyWell>>],
+               \* a 2x3 plate whose wells A1, A2 and B3 need the same top-up (instruction text groups wells by amount)
+               p3 |-> [cap |-> I(10), w |-> <<MkWell(K4(I(1), Zero, Zero, Zero)), MkWell(K4(I(1), Zero, Zero, Zero)), MkWell(K4(I(2), Zero, Zero, Zero)),
+                                               MkWell(K4(I(3), Zero, Zero, Zero)), EmptyWell, MkWell(K4(I(1), Zero, Zero, Zero))>>],
                u |-> RCont(Inf, K4(I(4), Zero, Zero, Zero)), c |-> RCont(Inf, Empty), sol |-> RCont(Inf, Empty),
                dil |-> RCont(Inf, Empty)]}
 LIFE_Alphabet == <<
@@ -63,9 +66,12 @@ PROG_Init == {[a |-> RCont(Inf, K4(I(8), One, I(2), Zero)), b |-> RCont(I(20), K
                p |-> [cap |-> I(10), w |-> <<MkWell(K4(I(4), Zero, Zero, Zero)), MkWell(K4(I(2), I(1), Zero, Zero)),
                                               MkWell(K4(Zero, Zero, I(1), I(2))), EmptyWell>>],
                p2 |-> [cap |-> I(6), w |-> <<EmptyWell, MkWell(K4(I(1), Zero, Zero, Zero))>>],      \* first well empty
+               \* a 2x3 plate whose wells A1, A2 and B3 need the same top-up (instruction text groups wells by amount)
+               p3 |-> [cap |-> I(10), w |-> <<MkWell(K4(I(1), Zero, Zero, Zero)), MkWell(K4(I(1), Zero, Zero, Zero)), MkWell(K4(I(2), Zero, Zero, Zero)),
+                                               MkWell(K4(I(3), Zero, Zero, Zero)), EmptyWell, MkWell(K4(I(1), Zero, Zero, Zero))>>],
                u |-> RCont(Inf, K4(I(4), Zero, Zero, Zero)), c |-> RCont(Inf, Empty), sol |-> RCont(Inf, Empty),
                dil |-> RCont(Inf, Empty)]}
-PROG_ObjName == [a |-> "a", b |-> "b", p |-> "p", p2 |-> "p2"]
+PROG_ObjName == [a |-> "a", b |-> "b", p |-> "p", p2 |-> "p2", p3 |-> "p3"]
 PROG_Steps == <<
   Tr("a", "-", "p", "row1", One, "L"), Tr("a", "-", "b", "-", I(2), "g"), Tr("p", "col1", "b", "-", R(1, 2), "mol"),
   Tr("p", "A1", "p", "row2", One, "L"), Tr("b", "-", "p", "plate", R(1, 2), "U"), Tr("a", "-", "b", "-", I(100), "L"),
@@ -80,7 +86,8 @@ PROG_Steps == <<
   Tr("c", "-", "p", "A2", One, "L"), Tr("a", "-", "c", "-", I(2), "L"),
   Cs("sol", "N", "W", One, "mol", I(9), "L"), Cs("sol", "N", "a", I(3), "g", I(6), "L"), Tr("sol", "-", "p", "B1", One, "L"),
   Cf("a", "dil", "N", "W", R(1, 10), "mol", "L", I(4), "L"), Tr("dil", "-", "p", "B2", One, "L"),
-  Tr("a", "-", "c", "-", I(4), "L")>>        \* overflows the 10-unit container the recipe itself created (7 + 4): bake must refuse
+  Tr("a", "-", "c", "-", I(4), "L"),         \* overflows the 10-unit container the recipe itself created (7 + 4): bake must refuse
+  Fl("p3", "plate", "W", "L", I(5))>>        \* wells A1, A2, B3 get 4; A3 3; B1 2; B2 5 (grouped by amount in the instruction)
 PROG_Alphabet == PROG_Steps \o <<Ss("s1"), Es("s1"), Ss("s2"), Bk>>
 \* STAGE: refused bakes in the middle of a program.  p is declared explicitly and used late, so that a bake in between is
 \* refused (declared but unused) and must leave the open stage open: the steps added afterwards belong to it (C09, C15, C16)
